@@ -5,6 +5,7 @@
 (* demands of the specification's state.  The spec state is driven by the operations alone.        *)
 (*                                                                                                 *)
 (* P-conjuncts (BAD): result class of the operation; Read acceptable (PatchChain!Acceptable) for   *)
+(*   every name and spelling, identical across spellings and through extract_files (batch);        *)
 (*   every name and spelling, identical across spellings; Contains; FindArchive; List = union as a *)
 (*   set of names; no foreign names; archive count.                                                *)
 (* D-conjuncts (DRIFT): order reported by get_chain_info; the same name listed in two spellings.   *)
@@ -46,6 +47,7 @@ ReadTag(n, o) ==
   LET r == ObsRes(o)
   IN  IF Acceptable(r, vchain', Cont, vmap', n) THEN ""
       ELSE IF r.res \in {"panic", "hang"} THEN "crash"
+      ELSE IF r = ReadWith({"d4"}, vchain', Cont, vmap', n) THEN "d4"
       ELSE IF r = ReadWith({"d3"}, vchain', Cont, vmap', n) THEN "d3"
       ELSE IF r = ReadWith({"d2"}, vchain', Cont, vmap', n) THEN "d2"
       ELSE IF r = ReadWith({"d1"}, vchain', Cont, vmap', n) THEN "d1"
@@ -57,6 +59,8 @@ NameTags(e, k) ==
       t1 == ReadTag(n, e.obs.rd[k])
   IN  (IF t1 # "" THEN <<"read:" \o t1 \o ":" \o n>> ELSE <<>>)
       \o (IF e.obs.rd2[k] # e.obs.rd[k] \/ e.obs.rd3[k] # e.obs.rd[k] THEN <<"read:spelling">> ELSE <<>>)
+      \* extract_files (one batch call over all names) answers as read_file does, name by name, in request order
+      \o (IF e.obs.rdx[k] # e.obs.rd[k] THEN <<"read:extract:" \o n>> ELSE <<>>)
       \o (IF \E j \in 1..3 : e.obs.has[k][j] # ContainsSpec(vmap', n) THEN <<"contains">> ELSE <<>>)
       \o (IF e.obs.fnd[k] # FindSpec(vchain', vmap', n) THEN <<"find">> ELSE <<>>)
 Listed(e)   == {e.obs.lst[i] : i \in 1..Len(e.obs.lst)}
